@@ -154,11 +154,14 @@ pub fn cases(rng: &mut Rng, tier: &str) -> (Vec<Case>, bool) {
     }
     // every session so far, once more on the page script itself: `class Interpreter` and the submit handler of
     // abasic-web/ts/main.ts run under node and drive the real adapter; they must agree with the transliteration
-    let every = if tier == "thorough" { 4 } else { 12 };
+    // node is not among the tools this sandbox guarantees: without it the sessions run on the transliteration only
+    // (the evidence then shows no `+script` families)
+    let node_ok = std::process::Command::new("node").arg("--version").stdout(std::process::Stdio::null()).stderr(std::process::Stdio::null()).status().map(|s| s.success()).unwrap_or(false);
+    let every = if !node_ok { usize::MAX } else if tier == "thorough" { 4 } else { 12 };
     let n_cases = cases.len();
     for (ci, c) in cases.iter_mut().enumerate() {
         let fixed_family = c.tag == "string-pool" || c.tag == "long-listing";
-        if !(fixed_family && (tier == "thorough" || ci % 3 == 0)) && ci % every != 0 {
+        if !node_ok || (!(fixed_family && (tier == "thorough" || ci % 3 == 0)) && ci % every != 0) {
             continue;
         }
         if c.tag == "long-listing" && c.ops.len() > 400 {
